@@ -461,7 +461,7 @@ def path_expand(path, path_template=None, level_offset=None, account_id=0, cosig
     return npath
 
 
-def bip38_decrypt(encrypted_privkey, password):
+def bip38_decrypt(encrypted_privkey, password, network=DEFAULT_NETWORK):
     """
     BIP0038 non-ec-multiply decryption. Returns WIF private key.
     Based on code from https://github.com/nomorecoin/python-bip38-testing
@@ -471,6 +471,8 @@ def bip38_decrypt(encrypted_privkey, password):
     :type encrypted_privkey: str
     :param password: Required password for decryption
     :type password: str
+    :param network: Network of the encrypted key, used to verify the address hash of EC-multiplied keys
+    :type network: str, Network
 
     :return tuple (bytes, bytes, boolean, dict): (Private Key bytes, 4 byte address hash for verification, compressed?, dictionary with additional info)
     """
@@ -524,7 +526,7 @@ def bip38_decrypt(encrypted_privkey, password):
         if int.from_bytes(factor_b, 'big') == 0 or int.from_bytes(factor_b, 'big') >= secp256k1_n:
             raise ValueError("Invalid EC encrypted WIF (Wallet Import Format)")
 
-        private_key = HDKey(pass_factor) * HDKey(factor_b)
+        private_key = Key(pass_factor, network=network) * Key(factor_b)
         compressed = False
         public_key = private_key.public_uncompressed_hex
         if flagbyte in [BIP38_MAGIC_NO_LOT_AND_SEQUENCE_COMPRESSED_FLAG, BIP38_MAGIC_LOT_AND_SEQUENCE_COMPRESSED_FLAG,
@@ -1431,7 +1433,7 @@ class Key(object):
 
         :return str: Private Key WIF
         """
-        priv, addresshash, compressed, _ = bip38_decrypt(encrypted_privkey, password)
+        priv, addresshash, compressed, _ = bip38_decrypt(encrypted_privkey, password, network)
 
         # Verify addresshash
         k = Key(priv, compressed=compressed, network=network)
@@ -1990,7 +1992,7 @@ class HDKey(Key):
 
         :return str: Private Key WIF
         """
-        priv, addresshash, compressed, _ = bip38_decrypt(encrypted_privkey, password)
+        priv, addresshash, compressed, _ = bip38_decrypt(encrypted_privkey, password, network)
         # compressed = True if priv[-1:] == b'\1' else False
 
         # Verify addresshash
